@@ -244,7 +244,10 @@ def strat_traj(ctx):
     return st.fixed_dictionaries({"script": script_case(), "separate": st.booleans(), "simulated": st.booleans(),
                                   "nsamp": st.integers(1, 4), "qunit": st.sampled_from(si.QUANTITY_SYMS),
                                   "tunit": st.sampled_from(si.TIME_SYMS), "name": st.sampled_from(["out", "out.json", "tr aj", "x.y"]),
-                                  "cgmap": st.booleans()})
+                                  "cgmap": st.booleans(),
+                                  # the trajectory carries a system of its own, different from its script's (as after a
+                                  # coarse-grained run, where the script holds the coarse system and the trajectory the fine one)
+                                  "own_system": st.booleans()})
 
 
 def check_traj(ctx, c):
@@ -263,7 +266,12 @@ def check_traj(ctx, c):
         data = S.UnitArray([float(k) * 1.5 + 0.1 for k in range(n * c["nsamp"])], c["qunit"])
         t = S.UnitArray([float(k) for k in range(c["nsamp"])], c["tunit"])
         cg = list(range(sc.system.space.size())) if c["cgmap"] else None
-        tr = S.RDTrajectory(data=data, t_sample=t, system=sc.system, script=sc, engine_description="desc", engine_option="euler", cgmap=cg)
+        tsys = sc.system
+        if c.get("own_system"):
+            tsys = sc.system.copy()
+            tsys.set_state(0, 0, S.UnitValue(12345.0, "molecule"))
+            tsys.set_chemostat(0, 0, 1 - int(tsys.get_chemostat(0, 0)))
+        tr = S.RDTrajectory(data=data, t_sample=t, system=tsys, script=sc, engine_description="desc", engine_option="euler", cgmap=cg)
     tmp = scratch()
     try:
         path = os.path.join(tmp, c["name"])
